@@ -156,7 +156,8 @@ func (c *RegConfig) ParseOrResolveBlocklisted(provided string) (string, bool) {
 	if err != nil {
 		return "", lookup
 	}
-	if addr == nil || c.isBlocklistedCovertAddr(addr.IP) {
+	if addr == nil || addr.IP == nil || c.isBlocklistedCovertAddr(addr.IP) {
+		// ResolveIPAddr answers the empty host with an address that has no IP
 		return "", lookup
 	}
 	return net.JoinHostPort(addr.String(), port), lookup
